@@ -70,6 +70,8 @@ pub fn run_limited(bin: &Path, args: &[String], cwd: Option<&Path>, cpu_s: u32) 
     run_limited_stdin(bin, args, cwd, cpu_s, None)
 }
 
+/// directory holding a stand-in `vampire` (prepended to PATH of every subprocess once set)
+pub static PROVER_DIR: std::sync::OnceLock<PathBuf> = std::sync::OnceLock::new();
 pub static SLOW_BUT_TERMINATING: std::sync::atomic::AtomicU64 = std::sync::atomic::AtomicU64::new(0);
 static CONFIRMED_HANGS: std::sync::atomic::AtomicU64 = std::sync::atomic::AtomicU64::new(0);
 
@@ -102,7 +104,10 @@ pub fn run_limited_stdin(bin: &Path, args: &[String], cwd: Option<&Path>, cpu_s:
 
 fn run_once(bin: &Path, args: &[String], cwd: Option<&Path>, cpu_s: u32, stdin: Option<&Path>) -> Class {
     let mut sh = Command::new("sh");
-    let mut script = format!("ulimit -t {cpu_s}; ulimit -c 0; exec \"$0\" \"$@\"");
+    // CPU-time limit, no core files, and 4 GB of address space: an input that makes anthem
+    // allocate without bound dies of a failed allocation (an abort) instead of exhausting the
+    // machine's memory
+    let mut script = format!("ulimit -t {cpu_s}; ulimit -c 0; ulimit -v 4194304; exec \"$0\" \"$@\"");
     if false {
         script.push(' ');
     }
@@ -118,11 +123,25 @@ fn run_once(bin: &Path, args: &[String], cwd: Option<&Path>, cpu_s: u32, stdin: 
     if let Some(d) = cwd {
         sh.current_dir(d);
     }
+    if let Some(p) = PROVER_DIR.get() {
+        sh.env("PATH", format!("{}:{}", p.display(), std::env::var("PATH").unwrap_or_default()));
+        sh.env_remove("AVM_PLAN");
+        sh.env_remove("AVM_LOG");
+    }
     let started = Instant::now();
     let mut child = match sh.spawn() {
         Ok(c) => c,
         Err(e) => return Class::Inconclusive(format!("spawn: {e}")),
     };
+    let pid = child.id();
+    crate::run::child_started(pid);
+    struct Done(u32);
+    impl Drop for Done {
+        fn drop(&mut self) {
+            crate::run::child_finished(self.0);
+        }
+    }
+    let _done = Done(pid);
     // read the pipes in threads so that a chatty child cannot block
     let mut so = child.stdout.take().unwrap();
     let mut se = child.stderr.take().unwrap();
@@ -531,7 +550,7 @@ fn batch_case(cfg: &Config, tmp: &Path, corpus: &[(Kind, String)], cmds: &[Cmd],
     let mut rounds = 0;
     while from < inputs.len() && rounds < 8 {
         rounds += 1;
-        let script = "ulimit -t 60; ulimit -c 0; exec \"$0\" \"$@\"";
+        let script = "ulimit -t 60; ulimit -c 0; ulimit -v 8388608; exec \"$0\" \"$@\"";
         let out = Command::new("sh")
             .arg("-c")
             .arg(script)
@@ -678,6 +697,14 @@ fn verify_case(cfg: &Config, tmp: &Path, corpus: &[(Kind, String)], idx: u64, r:
         }
         _ => {}
     }
+    if r.chance(1, 12) {
+        // accepted inputs that leave nothing to prove: empty and comment-only programs
+        let blank = |r: &mut Rng| ["", "% nothing here\n", "\n\n", "%* block comment *%\n"][r.upto(4)].to_string();
+        t.right = blank(r);
+        if r.chance(2, 3) {
+            t.left = Either::Left(blank(r));
+        }
+    }
     let d = tmp.join(format!("v{idx}"));
     std::fs::create_dir_all(d.join("out")).unwrap();
     let mut files: Vec<(String, String)> = Vec::new();
@@ -699,6 +726,11 @@ fn verify_case(cfg: &Config, tmp: &Path, corpus: &[(Kind, String)], idx: u64, r:
     }
     let flags = Flags::random(r);
     let mut args: Vec<String> = vec!["verify".into(), "--equivalence".into(), if strong { "strong" } else { "external" }.into(), "--no-proof-search".into(), "--save-problems".into(), "out".into()];
+    if PROVER_DIR.get().is_some() && r.chance(1, 5) {
+        // the later stage "proof search" as well (against a stand-in prover that answers at once)
+        args = vec!["verify".into(), "--equivalence".into(), if strong { "strong" } else { "external" }.into(), "--no-timing".into(), "-t".into(), "1".into(), "-n".into(), ["1", "2", "3", "8", "0"][r.upto(5)].to_string()];
+        st.inc("verify_inputs_with_proof_search");
+    }
     if r.chance(1, 2) {
         args.push("--bypass-tightness".into());
     }
@@ -752,6 +784,11 @@ pub fn run(cfg: &Config) -> i32 {
         return 2;
     }
     let cmds = single_file_commands();
+    let fakebin = tmp.join("bin");
+    let _ = std::fs::create_dir_all(&fakebin);
+    if std::fs::copy(cfg.fake_vampire(), fakebin.join("vampire")).is_ok() {
+        let _ = PROVER_DIR.set(fakebin.clone());
+    }
     let budget = Duration::from_secs_f64(cfg.pick(45.0, 480.0) * cfg.scale);
     let mut stats = parallel(cfg, "single", cfg.scaled(cfg.pick(1_000, 400_000)), budget, |idx, r, st| batch_case(cfg, &tmp, &corpus, &cmds, idx, r, st));
     let s2 = parallel(cfg, "verify", cfg.scaled(cfg.pick(1500, 1_000_000)), budget / 2, |idx, r, st| verify_case(cfg, &tmp, &corpus, idx, r, st));
